@@ -42,6 +42,12 @@ func runC17(c *core.Ctx) {
 			}
 			continue
 		}
+		if r.Chance(1, 12) {
+			if !c17nested(c, r) {
+				return
+			}
+			continue
+		}
 		if r.Chance(1, 6) {
 			// result types and values that invite shortcuts: zero values, nil pointers,
 			// nil and NON-nil errors as the last result
@@ -135,6 +141,15 @@ func runC17(c *core.Ctx) {
 		// in half of the rounds, so that some callers arrive exactly while it completes
 		stagger := r.Bool()
 		span := hold + time.Duration(gosched+1)*2*time.Microsecond
+		// a third of the rounds (when every caller can have a processor of its own)
+		// release the callers from a spin barrier instead of a channel: they then reach
+		// the very first Do on the fresh value within nanoseconds of each other
+		spin := r.Chance(1, 3) && ng <= runtime.GOMAXPROCS(0)
+		var ready, goFlag atomic.Int32
+		if spin {
+			stagger = false
+			c.Count("rounds_spin_barrier", 1)
+		}
 		for g := 0; g < ng; g++ {
 			wg.Add(1)
 			delay := time.Duration(0)
@@ -144,6 +159,11 @@ func runC17(c *core.Ctx) {
 			go func(id int64, delay time.Duration) {
 				defer wg.Done()
 				<-start
+				if spin {
+					ready.Add(1)
+					for goFlag.Load() == 0 {
+					}
+				}
 				if delay > 0 {
 					for t0 := time.Now(); time.Since(t0) < delay; {
 					}
@@ -152,6 +172,12 @@ func runC17(c *core.Ctx) {
 			}(int64(g), delay)
 		}
 		close(start)
+		if spin {
+			for t0 := time.Now(); ready.Load() < int32(ng) && time.Since(t0) < 2*time.Second; {
+				runtime.Gosched()
+			}
+			goFlag.Store(1)
+		}
 		if !joinOrDeadlock(c, &wg, fmt.Sprintf("Once%d", arity), "a round of concurrent Do calls", map[string]any{"arity": arity, "goroutines": ng}) {
 			return
 		}
@@ -331,6 +357,82 @@ func c17typed[T comparable](c *core.Ctx, r *core.Rand, tname string, val func(id
 	if m, _ := wrong.Load().(string); m != "" {
 		c.Violate(fmt.Sprintf("Once%d:results[last result %s]", arity, tname), "a Do call returned values other than those of the one invocation: "+m, extra)
 		return false
+	}
+	return true
+}
+
+// c17nested: actions that use OTHER Once values. Value k's action makes the first Do
+// call on value k+1 (directly, or in a goroutine it waits for), in a chain of
+// 1100..2600 distinct values: every action must run exactly once, every Do must return
+// its own action's value. Once values that secretly share state (a striped lock table,
+// a pooled helper) block or mix results here - a chain longer than any plausible table.
+func c17nested(c *core.Ctx, r *core.Rand) bool {
+	n := r.Range(1100, 2600)
+	viaGoroutine := r.Chance(1, 4)
+	if viaGoroutine {
+		n = r.Range(300, 1100)
+	}
+	separately := r.Bool()
+	chain := make([]*sync2.Once1[int], n)
+	if separately {
+		for i := range chain {
+			chain[i] = new(sync2.Once1[int])
+		}
+	} else {
+		block := make([]sync2.Once1[int], n)
+		for i := range chain {
+			chain[i] = &block[i]
+		}
+	}
+	inv := make([]int32, n)
+	var do func(k int) int
+	do = func(k int) int {
+		return chain[k].Do(func() int {
+			atomic.AddInt32(&inv[k], 1)
+			if k+1 == n {
+				return k
+			}
+			if viaGoroutine {
+				ch := make(chan int)
+				go func() { ch <- do(k + 1) }()
+				return <-ch - 1
+			}
+			return do(k+1) - 1
+		})
+	}
+	var wg sync.WaitGroup
+	var got int
+	wg.Add(1)
+	go func() { defer wg.Done(); got = do(0) }()
+	extra := map[string]any{"chain_length": n, "nested_call_in_a_goroutine_the_action_waits_for": viaGoroutine, "separately_allocated": separately}
+	if !joinOrDeadlock(c, &wg, "Once1:nested", fmt.Sprintf("a chain of %d Once1 values, each action making the first Do call on the next value", n), extra) {
+		return false
+	}
+	c.Count("rounds_nested_chains", 1)
+	c.Count("do_calls", int64(n))
+	// value k's action returns (value of k+1) - 1 and the last one returns n-1, so value k holds k
+	if got != 0 {
+		c.Violate("Once1:nested:results", fmt.Sprintf("the head of a chain of %d nested Once1 values returned %d, expected 0", n, got), extra)
+		return false
+	}
+	for k := range inv {
+		if inv[k] != 1 {
+			c.Violate("Once1:nested:invocations", fmt.Sprintf("the action of value %d in a chain of %d nested Once1 values ran %d times", k, n, inv[k]), extra)
+			return false
+		}
+	}
+	// later calls return the stored values (value k of the chain holds k) without invoking anything
+	for _, k := range []int{0, n / 2, n - 1} {
+		if v := chain[k].Do(func() int { atomic.AddInt32(&inv[k], 1); return -1 }); v != k {
+			c.Violate("Once1:nested:results", fmt.Sprintf("a later Do on value %d of a chain of %d nested Once1 values returned %d, expected %d", k, n, v, k), extra)
+			return false
+		}
+	}
+	for k := range inv {
+		if inv[k] != 1 {
+			c.Violate("Once1:nested:invocations", fmt.Sprintf("a later Do on value %d of the chain ran its function", k), extra)
+			return false
+		}
 	}
 	return true
 }
